@@ -22,10 +22,10 @@ type FeatSpec struct {
 }
 
 type Delays struct {
-	Source  int         `json:"source"`  // 0 none, 1 gosched, 2 short sleeps, 3 long sleeps
+	Source  int         `json:"source"` // 0 none, 1 gosched, 2 short sleeps, 3 long sleeps
 	Snap    int         `json:"snap"`
-	Target  map[int]int `json:"target"`  // per target
-	Finish  map[int]int `json:"finish"`  // per target: delay (microseconds) between seeing the close and returning
+	Target  map[int]int `json:"target"`   // per target
+	Finish  map[int]int `json:"finish"`   // per target: delay (microseconds) between seeing the close and returning
 	LogLate bool        `json:"log_late"` // record a received feature after (true) or before the handling delay
 }
 
@@ -56,7 +56,7 @@ type Result struct {
 	EarlyReturn    []int   `json:"early_return,omitempty"` // targets not finished when ProcessFeatures returned
 	Leaked         int     `json:"leaked"`                 // goroutines above baseline after settling
 	LeakStacks     string  `json:"leak_stacks,omitempty"`
-	AliveAtReturn  int     `json:"alive_at_return"` // goroutines above baseline right at return (allowed: reader/snapper)
+	AliveAtReturn  int     `json:"alive_at_return"`   // goroutines above baseline right at return (allowed: reader/snapper)
 	BadIDs         string  `json:"bad_ids,omitempty"` // processPolygonFunc called with ids other than the targets
 	UnknownPolygon int     `json:"unknown_polygon"`   // processPolygonFunc called with a polygon that is no source polygon
 	Millis         float64 `json:"ms"`
